@@ -24,3 +24,16 @@
 (declare-fun cancel_of (Iface) Int)
 ;; ghost ndelivered Int
 ;; ghost delivered (Array Int Iface)
+; ghost state of one TermInCommittee (single-node send log and storage versions), indexed by view where applicable
+;; ghost ppStored (Array Int Bool)
+;; ghost ppHash (Array Int Str)
+;; ghost sentPrepare (Array Int Bool)
+;; ghost sentPrepareHash (Array Int Str)
+;; ghost sentCommit (Array Int Bool)
+;; ghost sentCommitHash (Array Int Str)
+;; ghost proposed (Array Int Bool)
+;; ghost lastVC Int
+;; ghost ncommitted Int
+;; ghost pver Int
+;; ghost cver Int
+;; ghost vcver Int
